@@ -74,8 +74,13 @@ def main() -> int:
         rc2, _ = common.lake("nmdriver")
         ctx.model_available = rc2 == 0 and common.DRIVER.exists()
     if tr_groups:
-        rc3, _ = common.lake("trdriver")
+        rc3, log3 = common.lake("trdriver")
         ctx.translated_available = rc3 == 0 and common.TRDRIVER.exists()
+        if not ctx.translated_available:
+            # trdriver links every group: a function of ANOTHER property that is untranslatable as it is now takes the
+            # translated-source streams of this check down with it (never its proofs: one generated file per group)
+            ctx.notes.append("trdriver did not build, the translated-source streams of this run were skipped: " +
+                             "; ".join(common.broken_decls(log3)[:3] or [log3[-300:]]))
     # 2. audit
     obligations, forbidden = common.count_obligations(mod.PROPS_MODULE)
     proof_problems += ["forbidden construct: " + h for h in forbidden]
